@@ -240,6 +240,18 @@ type rqEnt struct {
 	it       int
 	running  bool
 	killable bool
+	created  int // created_at: 0 = zero time (what the package's own stub queues leave), k > 0 = rqT0 + k minutes
+}
+
+// created_at of generated containers (the real container.Queue selects created_at; runQueue must order by
+// priority whatever the ages are)
+var rqT0 = time.Date(2024, 1, 1, 0, 0, 0, 0, time.UTC)
+
+func rqCreatedAt(k int) time.Time {
+	if k <= 0 {
+		return time.Time{}
+	}
+	return rqT0.Add(time.Duration(k) * time.Minute)
 }
 
 type rqSnap struct {
@@ -299,10 +311,15 @@ func rqRun(sn rqSnap, ctx context.Context) (term string, desc map[string]interfa
 		createS = append(createS, fmt.Sprintf("(%s, %s)", gN(int64(i)), rqBools(sn.create[i])))
 	}
 	q := &rqQueue{ents: map[string]container.QueueEnt{}, pool: pool, updated: time.Now()}
-	var entS, runS, killS []string
+	var entS, runS, killS, createdS []string
 	for _, e := range sn.ents {
 		uuid := test.ContainerUUID(e.id)
-		q.ents[uuid] = container.QueueEnt{Container: arvados.Container{UUID: uuid, State: rqStates[e.st], Priority: e.prio}, InstanceType: its[e.it]}
+		// the fields container.Queue selects: uuid, state, priority, runtime_constraints, scheduling_parameters, created_at
+		q.ents[uuid] = container.QueueEnt{Container: arvados.Container{UUID: uuid, State: rqStates[e.st], Priority: e.prio,
+			CreatedAt:          rqCreatedAt(e.created),
+			RuntimeConstraints: arvados.RuntimeConstraints{VCPUs: 1 + e.it, RAM: int64(1+e.it) << 30},
+		}, InstanceType: its[e.it]}
+		createdS = append(createdS, fmt.Sprintf("%d:%d", e.id, e.created))
 		entS = append(entS, fmt.Sprintf("E %s %s %s %s", gN(int64(e.id)), gN(int64(e.st)), gZ(e.prio), gN(int64(e.it))))
 		if e.running {
 			pool.running[uuid] = time.Time{}
@@ -333,7 +350,7 @@ func rqRun(sn rqSnap, ctx context.Context) (term string, desc map[string]interfa
 		gList(entS), gList(runS), gList(unallocS),
 		rqBools(sn.quota), gList(killS), gList(createS), gList(idleS),
 		gList(log), gList(locks), gList(shut))
-	desc = map[string]interface{}{"ents(uuid,state,prio,type)": entS, "running": runS, "unalloc": unallocS, "quota": sn.quota,
+	desc = map[string]interface{}{"ents(uuid,state,prio,type)": entS, "created_at(uuid:minutes after t0, 0 = zero time)": createdS, "running": runS, "unalloc": unallocS, "quota": sn.quota,
 		"killable": killS, "create": createS, "idle": idleS, "log": log, "locks": locks, "shutdown": shut}
 	return
 }
@@ -400,7 +417,34 @@ func rqGenSnap(r *vRand) (rqSnap, []string) {
 		}
 		mk()
 	}
-	tags = append(tags, fmt.Sprintf("n=%d", n), fmt.Sprintf("priomode=%d", prioMode))
+	// created_at against priority: 0 zero times, 1 all equal, 2 the higher the priority the newer, 3 the higher
+	// the priority the older, 4 unrelated
+	createdMode := r.Intn(5)
+	if n > 0 {
+		lo, hi := sn.ents[0].prio, sn.ents[0].prio
+		for _, e := range sn.ents {
+			if e.prio < lo {
+				lo = e.prio
+			}
+			if e.prio > hi {
+				hi = e.prio
+			}
+		}
+		for i := range sn.ents {
+			e := &sn.ents[i]
+			switch createdMode {
+			case 1:
+				e.created = 7
+			case 2:
+				e.created = 3*int(e.prio-lo) + 1 + r.Intn(3)
+			case 3:
+				e.created = 3*int(hi-e.prio) + 1 + r.Intn(3)
+			case 4:
+				e.created = 1 + r.Intn(20)
+			}
+		}
+	}
+	tags = append(tags, fmt.Sprintf("n=%d", n), fmt.Sprintf("priomode=%d", prioMode), fmt.Sprintf("createdmode=%d", createdMode))
 	if rqTieProduct(sn.ents) > 1 {
 		tags = append(tags, "ties")
 	}
@@ -538,12 +582,18 @@ func TestVerifC16RQExh(t *testing.T) {
 	}
 	for _, a := range firsts {
 		a := a
-		pools(true, func(sn rqSnap) { sn.ents = []rqEnt{a}; emit(sn, "one-container") })
+		pools(true, func(sn rqSnap) { a := a; a.created = (idx / 16) % 2; sn.ents = []rqEnt{a}; emit(sn, "one-container") })
 	}
 	for _, a := range firsts {
 		for _, b := range seconds {
 			a, b := a, b
-			pools(false, func(sn rqSnap) { sn.ents = []rqEnt{a, b}; emit(sn, "two-containers") })
+			pools(false, func(sn rqSnap) {
+				// ages alternate: the first container is the older one in half of the snapshots
+				a, b := a, b
+				a.created, b.created = 1+(idx/16)%2, 2-(idx/16)%2
+				sn.ents = []rqEnt{a, b}
+				emit(sn, "two-containers")
+			})
 		}
 	}
 	cs.Write()
